@@ -300,16 +300,68 @@ pub fn run_cli(toml: &str) -> Option<String> {
     let dir = std::env::var("NTV_TMP").unwrap_or_else(|_| std::env::temp_dir().to_string_lossy().to_string());
     let path = format!("{}/ntvh-cli-{}-{:?}.toml", dir, std::process::id(), std::thread::current().id());
     std::fs::write(&path, toml).ok()?;
-    let out = std::process::Command::new(bin).arg(&path).output();
+    let mut cmd = std::process::Command::new(bin);
+    cmd.arg(&path);
+    let out = output_with_timeout(cmd);
     let _ = std::fs::remove_file(&path);
     match out {
-        Ok(o) if o.status.success() => Some(String::from_utf8_lossy(&o.stdout).to_string()),
-        Ok(o) => {
+        Some(Ok(o)) if o.status.success() => Some(String::from_utf8_lossy(&o.stdout).to_string()),
+        Some(Ok(o)) => {
             let err = String::from_utf8_lossy(&o.stderr);
             Some(format!("panic {}", classify(&err)))
         }
-        Err(_) => None,
+        Some(Err(_)) => None,
+        // the process did not finish: an answer in its own right (`panic timeout`), so that the case
+        // is reported with its input instead of stalling the whole run
+        None => Some("panic timeout".into()),
     }
+}
+/// Runs a child process to completion, or kills it after NTV_CHILD_TIMEOUT seconds (default 90):
+/// `None` = killed. stdout/stderr go through temporary files so that a full pipe cannot block it.
+pub fn output_with_timeout(mut cmd: std::process::Command) -> Option<std::io::Result<std::process::Output>> {
+    let limit: u64 = std::env::var("NTV_CHILD_TIMEOUT").ok().and_then(|s| s.parse().ok()).unwrap_or(90);
+    let dir = std::env::var("NTV_TMP").unwrap_or_else(|_| std::env::temp_dir().to_string_lossy().to_string());
+    let tag = format!("{}/ntvh-child-{}-{}", dir, std::process::id(), now_secs());
+    let (po, pe) = (format!("{tag}.out"), format!("{tag}.err"));
+    let fo = match std::fs::File::create(&po) {
+        Ok(f) => f,
+        Err(e) => return Some(Err(e)),
+    };
+    let fe = match std::fs::File::create(&pe) {
+        Ok(f) => f,
+        Err(e) => return Some(Err(e)),
+    };
+    cmd.stdout(fo).stderr(fe).stdin(std::process::Stdio::null());
+    let mut child = match cmd.spawn() {
+        Ok(c) => c,
+        Err(e) => return Some(Err(e)),
+    };
+    let start = std::time::Instant::now();
+    let status = loop {
+        match child.try_wait() {
+            Ok(Some(st)) => break Some(st),
+            Ok(None) => {
+                if start.elapsed().as_secs() >= limit {
+                    let _ = child.kill();
+                    let _ = child.wait();
+                    break None;
+                }
+                // a waiting child is not a stalled harness
+                LAST_EMIT.store(now_secs(), std::sync::atomic::Ordering::Relaxed);
+                std::thread::sleep(std::time::Duration::from_millis(5));
+            }
+            Err(e) => {
+                let _ = std::fs::remove_file(&po);
+                let _ = std::fs::remove_file(&pe);
+                return Some(Err(e));
+            }
+        }
+    };
+    let stdout = std::fs::read(&po).unwrap_or_default();
+    let stderr = std::fs::read(&pe).unwrap_or_default();
+    let _ = std::fs::remove_file(&po);
+    let _ = std::fs::remove_file(&pe);
+    status.map(|st| Ok(std::process::Output { status: st, stdout, stderr }))
 }
 /// value of `"key": "value"` in the (pretty-printed JSON) stdout of the CLI
 pub fn json_field(out: &str, key: &str) -> Option<String> {
